@@ -199,6 +199,38 @@ def run_unit(ctx, name, **kw):
             check_is_prime(ctx, n, RN.is_prime(n), why=why)
         for n in KNOWN_BIG_PRIMES:
             check_is_prime(ctx, n, True, why="known-big-prime")
+        # prime factors of the published deterministic base sets (a base that is a multiple of n must not
+        # make a prime n look composite) and the bases themselves
+        bases = [2, 3, 5, 7, 11, 13, 17, 19, 23, 29, 31, 37, 41, 61, 73, 325, 9375, 28178, 450775, 9780504,
+                 1795265022, 31, 336781006125, 9639812373923155, 4230279247111683200, 14694767155120705706,
+                 16641139526367750375, 350, 3958281543, 2, 2570940, 211991001, 3749873356, 2, 75088, 642735, 203659041,
+                 3613982119, 725270293939359937, 3569819667048198375, 15, 7363882082, 992620450144556]
+        special = set()
+        for b0 in bases:
+            for pr, _e in RN.factor(b0) if b0 < 10 ** 13 else []:
+                special.add(pr)
+            for dlt in (-1, 0, 1):
+                special.add(b0 + dlt)
+        special |= {299210837, 407521, 14051, 193, 73}
+        for n in sorted(special):
+            if 1 < n < 2 ** 64:
+                check_is_prime(ctx, n, RN.is_prime(n), why="mr-base-related")
+        for kk in range(11, 64):
+            base = 1 << kk
+            cnt = 0
+            n = base
+            while cnt < 3:
+                n += 1
+                if RN.is_prime(n):
+                    check_is_prime(ctx, n, True, why="prime-after-2^k")
+                    cnt += 1
+            n = base
+            cnt = 0
+            while cnt < 3:
+                n -= 1
+                if RN.is_prime(n):
+                    check_is_prime(ctx, n, True, why="prime-before-2^k")
+                    cnt += 1
         for c in gen.NAMED:
             d = gen.named(c)
             check_is_prime(ctx, d.p, True, why="curve-prime")
